@@ -26,6 +26,7 @@ from vplib import run as R          # noqa: E402
 from vplib import replay as RP      # noqa: E402
 from vplib import cxxtypes as CT    # noqa: E402
 
+PARTIAL = [False]
 VALUE_CLASSES = ('postcondition', 'signal', 'callee-precondition')
 VIOLATION_CLASSES = VALUE_CLASSES + ('frame', 'pointer', 'bounds', 'unwinding', 'loop')
 
@@ -133,7 +134,7 @@ def native_replay(job, kern, args, wd, sanitize=False):
 
 
 def write_replay(prop, job, res, fo, args, expected, obs, verdict, note=''):
-    d = os.path.join(HERE, 'replay')
+    d = os.environ.get('VP_REPLAY_DIR') or os.path.join(HERE, 'replay')
     os.makedirs(d, exist_ok=True)
     path = os.path.join(d, '%s-%s.json' % (prop, re.sub(r'[^A-Za-z0-9_.-]', '_', job.name)[:120]))
     data = {
@@ -220,6 +221,7 @@ def do_check(prop, tier, keep=False, only=None, verbose=False):
     kernels = {k.name: k for k in plan['kernels']}
     jobs = plan['jobs']
     if only:
+        PARTIAL[0] = True
         rx = re.compile(only)
         jobs = [j for j in jobs if isinstance(j, tuple) or rx.search(j.name)]
     wd = os.path.join(HERE, '.work', '%s.%d' % (prop, os.getpid()))
@@ -447,8 +449,11 @@ def finish(prop, tier, seed, plan, results, known_hits, t0, exit_code, notes, wd
         # keep the file schema-valid but unmistakably empty
         ev['level'] = 'other'
         ev['coverage']['explanation'] = 'no obligations discharged in this run: ' + '; '.join(notes)[:500]
-    os.makedirs(os.path.join(HERE, 'evidence'), exist_ok=True)
-    with open(os.path.join(HERE, 'evidence', prop + '.json'), 'w') as f:
+    evdir = os.environ.get('VP_EVIDENCE_DIR') or os.path.join(HERE, 'evidence')
+    if PARTIAL[0] and not os.environ.get('VP_EVIDENCE_DIR'):
+        evdir = os.path.join(HERE, '.work', 'evidence_partial')      # --only runs never overwrite the registered evidence
+    os.makedirs(evdir, exist_ok=True)
+    with open(os.path.join(evdir, prop + '.json'), 'w') as f:
         json.dump(ev, f, indent=1, default=str)
     npass = sum(1 for r in results if r.status == 'pass')
     print('%s tier=%s jobs=%d passed=%d obligations=%d discharged=%d wall=%.1fs exit=%d'
